@@ -49,6 +49,11 @@ def cases(tier, seed):
         yield dict(kind='peer-abort-burst', source=rnd.choice([0, 2, 2, 1]),
                    reason=rnd.choice([0, 1, 2, 6, 200]), after=rnd.choice(['ac', 'echo', 'echo']),
                    nrsp=rnd.choice([1, 1, 3]), seed=seed * 13 + i)
+    for i in range(150 if tier == 'quick' else 5000):
+        yield dict(kind='exit-normal-response-in-flight',
+                   hold=rnd.choice(['until-release', 'until-release', 'no']),
+                   one_write=rnd.random() < 0.5, nrq=rnd.choice([1, 1, 2]),
+                   first=rnd.random() < 0.5, seed=seed * 17 + i)
     points = ['before', 'between', 'during']
     m = 3000 if tier == 'quick' else 100000
     for i in range(m):
@@ -205,6 +210,77 @@ def run_case(case):
             elif (e.source, e.reason_diag) != (src, rsn):
                 v('abort-fields-not-preserved', 'peer sent (%d,%d) surfaced %r' % (
                     src, rsn, (e.source, e.reason_diag)))
+            return _fin(world, viol, case, wire)
+        if kind == 'exit-normal-response-in-flight':
+            # the user sends requests, does not wait for the responses and leaves the context
+            # manager normally: the responses reach the requestor while it awaits the release
+            # reply (P-DATA in Sta7).  Leaving normally still means release, never abort.
+            held = []
+
+            def rsp_for(m):
+                return rc.enc_pdata([(m['pcid'], 3, rc.enc_command(
+                    {0x0002: rc.VERIFICATION, 0x0100: 0x8030, 0x0120: m['fields'].get(0x0110),
+                     0x0800: 0x0101, 0x0900: 0}))])
+
+            class Acc2(peers.ScriptedAcceptor):
+                def serve(self):
+                    while True:
+                        p = self.read_pdu()
+                        if p is None or p == 'timeout':
+                            self.ended = self.ended or 'eof'
+                            self.close()
+                            return
+                        if p['kind'] == 'P-DATA-TF':
+                            for m in self.feed_pdata(p):
+                                if case['hold'] == 'no':
+                                    self.send(rsp_for(m))
+                                else:
+                                    held.append(rsp_for(m))
+                        elif p['kind'] == 'A-RELEASE-RQ':
+                            if case['one_write']:
+                                self.send(b''.join(held) + rc.enc_release_rp())
+                            else:
+                                for h in held:
+                                    self.send(h)
+                                self.send(rc.enc_release_rp())
+                            self.ended = 'released'
+                            self.wait_close()
+                            return
+                        elif p['kind'] == 'A-ABORT':
+                            self.ended = 'aborted'
+                            self.close()
+                            return
+            def tap(s_, b):
+                wire.append(('C>S', b))
+            world.serve_peer(ADDR, lambda sock: (setattr(sock.peer, 'on_send', tap),
+                                                 Acc2(world.sim, sock))[1])
+            got = {}
+
+            def user3():
+                try:
+                    with cli.request_association(remote) as assoc:
+                        if case['first']:
+                            got['st'] = int(assoc.get_scu(rc.VERIFICATION)(1)) \
+                                if case['hold'] == 'no' else None
+                        for j in range(case['nrq']):
+                            msg = dimsemessages.CEchoRQMessage()
+                            msg.message_id = 20 + j
+                            msg.sop_class_uid = rc.VERIFICATION
+                            assoc.send(msg, assoc.get_scu(rc.VERIFICATION).args[1].id)
+                    got['left'] = True
+                except Exception as e:  # pylint: disable=broad-except
+                    got['exc'] = e
+            world.spawn(user3, 'user')
+            world.run(tmax=400)
+            world.drain(2.0)
+            asceprovider.Association._get_dul_message = orig
+            c2s = _pdus([b for d, b in wire if d == 'C>S'])
+            kinds = [p['kind'] for p in c2s]
+            if got.get('exc') is not None or not got.get('left'):
+                v('normal-exit-raised', repr(got.get('exc')))
+            if 'A-RELEASE-RQ' not in kinds or 'A-ABORT' in kinds:
+                v('normal-exit-did-not-release', 'client sent %r; peer ended %r' % (
+                    kinds[-5:], [p.ended for p in world.peers]))
             return _fin(world, viol, case, wire)
         if kind == 'reject-keeps-talking':
             def script(peer):
